@@ -30,7 +30,7 @@ func rulesC05(c *Ctx, r *Report) {
 	rulesNewickNames(c, r)
 	rulesNewickWriter(c, r)
 	rulesNewickChildren(c, r)
-	rulesPassAllFor(c, r, "formats/newick", []string{"Reader$1"}, 1)
+	rulesPassAllFor(c, r, "formats/newick", 2)
 }
 
 // replaceAllOf finds strings.ReplaceAll(x, from, to) calls reachable (by dominance) on the given edge of cond.
@@ -56,10 +56,10 @@ func replaceAlls(f *ssa.Function) []replSpec {
 }
 
 func rulesNewickNames(c *Ctx, r *Report) {
-	tok := c.fn("formats/newick", "(*reader).nextToken")
-	n2t := c.fn("formats/newick", "nameToText")
-	t2n := c.fn("formats/newick", "nameFromText")
-	qd := c.fn("formats/newick", "quoted")
+	tok := c.role("newick.nextToken")
+	n2t := c.role("newick.nameToText")
+	t2n := c.role("newick.nameFromText")
+	qd := c.role("newick.quoted")
 	if tok == nil || n2t == nil || t2n == nil || qd == nil {
 		r.undecided("G3", "formats/newick", "anchor", "", "nextToken, nameToText, nameFromText or quoted not found")
 		return
@@ -285,9 +285,9 @@ func cmpZeroClasses(op token.Token) (neg, zero, pos, nan bool, ok bool) {
 }
 
 func rulesNewickWriter(c *Ctx, r *Report) {
-	w := c.fn("formats/newick", "(*Node).newick")
+	w := c.role("newick.writer")
 	mt := c.fn("formats/newick", "(*Node).MarshalText")
-	n2t := c.fn("formats/newick", "nameToText")
+	n2t := c.role("newick.nameToText")
 	if w == nil || mt == nil {
 		r.undecided("END", "formats/newick", "anchor", "", "newick or MarshalText not found")
 		return
@@ -436,7 +436,7 @@ func rulesNewickWriter(c *Ctx, r *Report) {
 
 // rulesNewickChildren (CHILD): read() only ever appends to Children.
 func rulesNewickChildren(c *Ctx, r *Report) {
-	rd := c.fn("formats/newick", "(*reader).read")
+	rd := c.role("newick.read")
 	if rd == nil {
 		r.undecided("CHILD", "formats/newick.(*reader).read", "anchor", "", "read not found")
 		return
